@@ -275,9 +275,9 @@ CHECKS["C05"] = {
 CHECKS["C12"] = {
     "pkg": "./conn",
     "level": "exploration",
-    "rule": ("close: a workload of 0..2 RPCs with independently drawn client/handler programs (sequential or concurrent callers, optionally stalled directions, 1..3 of 11 scheduling points incl. the window inside terminate and the one between publishing a new stream and handing it to its watcher, goroutines either released as they arrive or held there until the close, optionally a peer message out of turn for the newest stream just before the close) "
+    "rule": ("close: a workload of 0..2 RPCs with independently drawn client/handler programs (sequential or concurrent callers, optionally stalled directions, 1..3 of 11 scheduling points incl. the window inside terminate and the one between publishing a new stream and handing it to its watcher, goroutines either released as they arrive or held there until the close, optionally a peer message out of turn for the newest stream or an invoke-metadata packet that does not decode just before the close; the transport's own Close may take a while after it has let go of the pending I/O) "
              "is advanced by 0..40 weighted director choices; then one of Conn.Close, two concurrent Conn.Close, cancel of the serving context, both, or Conn.Close racing a failing transport read is issued and the "
-             "transport is FROZEN. Oracle at quiescence: Close returned; every client (resp. handler) call returned; Closed() fired; the transport's Close was called exactly once; contexts of the active streams are done; calls "
+             "transport is FROZEN. Oracle at quiescence: Close returned, and no Close call returned before the transport's Close had; every client (resp. handler) call returned; Closed() fired; the transport's Close was called exactly once; contexts of the active streams are done; calls "
              "issued afterwards fail. Then bytes move again: the other side shuts down too, both transports closed exactly once, no goroutine with a storj.io/drpc frame remains. "
              "serve: drpcserver.Serve on an in-memory listener with 0..3 accepted connections in drawn states (idle, handler blocked in Recv, handler blocked in Send on a stalled transport, finished RPC), optionally one more connection "
              "offered at the instant of the stop (Serve held right after Accept returned it, or Accept itself still returning it when the stop happens); Serve is stopped by context cancel or listener failure. Oracle recorded by the goroutine that called Serve at the instant it returns: every accepted transport closed exactly once and no ServeOne goroutine alive. "
